@@ -234,7 +234,7 @@ def materialise(c):
             code, label = c['__foreign_enum__']
             members = {label: code}
             members.setdefault('pad', code + 1000)
-            return Enum('e', **members)[code]       # the generated enum types are all named 'e'
+            return Enum('e', members)[code]       # the generated enum types are all named 'e' (dict form: labels may be 'self', 'name', ...)
         return {k: materialise(v) for k, v in c.items()}
     return type(c)(materialise(v) for v in c)
 
